@@ -30,6 +30,17 @@ func notClaimed() [][2]string {
 func props() []prop {
 	return []prop{
 		{
+			ID: "C11", Level: "exploration",
+			LevelText:   "Two real actor systems talk over loopback TCP through an in-harness proxy that never drops a byte but re-segments the stream in four ways (as is, 1-byte writes, PRNG splits, coalescing), i.e. it varies exactly what kernel timing otherwise decides: how frames are split over reads. Every message carries (sender, sequence number, CRC); the monitor at the receiving behaviours decides exactly-once / order / integrity from the sequence numbers (a gap is a loss only when a later message of that sender arrived), Ask replies must carry the asker's id, observers on both systems must see no decode failure and no dead letter.",
+			LevelNote:   "Trusted: loopback TCP only (no kernel-level reordering, no TLS); the final 'tail' clause waits until nothing moved for 5 s and is skipped (inconclusive) when the stall detector saw the scheduler starve for > 1 s.",
+			Technique:   "sequence/checksum monitor over recorded deliveries under an adversarial (never-dropping) stream re-segmentation proxy",
+			DesignRef:   "DESIGN.md §4 C11",
+			Assumptions: with("the proxy never drops or reorders bytes; the link stays up"),
+			Units: []unit{
+				{Check: "remotestream", Pkg: "internal/actor", Shards: [2]int{5, 8}, Timeout: [2]time.Duration{8 * min, 40 * min}, CrashKey: "c11-crash", OnlyKinds: []string{"c11-", "harness-"}},
+			},
+		},
+		{
 			ID: "C13", Level: "fault_enumeration",
 			LevelText:   "Fault enumeration over the wire formats: for valid encodings of every registered type (three forms), version vectors, the handshake and primitive shapes, EVERY truncation, EVERY single-byte corruption (4 substitutions) and EVERY 4-byte window replaced by hostile lengths is fed to the real decoders, plus fixed/PRNG hostile strings and frames up to the 4 MiB limit; on the encode side one value of every unsupported reflect.Kind and malformed messages. Sentinels around each single-threaded call decide: panic, allocation out of proportion (runtime/metrics delta), time, caller's value modified by a failed Read, unsupported value encoded silently; cases run in child processes (8 GiB address-space limit) that journal every case before it starts, so a stack overflow, out-of-memory death or hang is attributed to its input and the enumeration continues after it.",
 			LevelNote:   "Trusted: the allocation bound 16 MiB + 64 x len(input) is set by the code's own caps (a map pre-sized for the permitted 65 536 entries costs about 3 MiB); allocation attribution is exact because calls are single-threaded. Inputs derive from generated valid encodings, not from a grammar of all byte strings.",
